@@ -159,3 +159,36 @@ impl Drop for Half {
         self.tx.borrow_mut().close();
     }
 }
+
+/// How many bytes of `buf` (a sequence of TLS records) to deliver for a delivery mode, chosen so
+/// that the peer's progress depends only on *which records are complete*, never on byte lengths
+/// (signatures and DER encodings vary in length from handshake to handshake):
+/// mode 0 = everything, 1 = up to the end of the first record, 2 = the first record minus its last
+/// byte (an incomplete record: no progress). `tail` carries the number of bytes still missing from
+/// a record that was delivered incompletely, so that parsing stays aligned on record boundaries.
+pub fn delivery_len(buf: &[u8], mode: u8, tail: &mut usize) -> usize {
+    if buf.is_empty() {
+        return 0;
+    }
+    if mode == 0 {
+        *tail = 0;
+        return buf.len();
+    }
+    if *tail > 0 {
+        // complete the record that was cut
+        let n = (*tail).min(buf.len());
+        *tail -= n;
+        return n;
+    }
+    let first = if buf.len() >= 5 {
+        (5 + u16::from_be_bytes([buf[3], buf[4]]) as usize).min(buf.len())
+    } else {
+        buf.len()
+    };
+    if mode == 1 || first < 2 {
+        first
+    } else {
+        *tail = 1;
+        first - 1
+    }
+}
